@@ -2,7 +2,7 @@
    and refines the reference semantics (plain finite maps). *)
 From stdpp Require Import gmap list.
 From Coq Require Import NArith Lia.
-From G Require Import Arith Monad Types Inv Raw RawProofs Map MapProofs Cost.
+From G Require Import Arith Monad Types Inv Raw RawProofs Map MapProofs IterProofs Cost.
 Local Open Scope N_scope.
 
 (* ---------------------------------------------------------------- the reference *)
@@ -12,6 +12,12 @@ Local Open Scope N_scope.
    reference knows nothing about); everything else is a function of the contents. *)
 Definition get_after (g : gvar) (k wv : N) (m : gmap N elem) : gmap N elem :=
   if get_writes g then match m !! k with Some e => <[k := Elem k (ekid e) wv]> m | None => m end else m.
+
+(* spec-level (location-free) versions of the iteration notions of IterProofs.v *)
+Definition yield_e (take : list N) (delta : N) (v : list elem) : list elem :=
+  map (bump0 delta) (List.filter (fun e => inb (ek e) take) v).
+Definition pass_res (act : elem -> option elem) (m0 : gmap N elem) (v : list elem) (m : gmap N elem) : Prop :=
+  forall k, m !! k = match lookup_list k v with Some e => act e | None => m0 !! k end.
 
 Definition spec_rel (σ : gmap N (gmap N elem)) (o : op) (r : out) (σ' : gmap N (gmap N elem)) : Prop :=
   match o with
@@ -35,6 +41,27 @@ Definition spec_rel (σ : gmap N (gmap N elem)) (o : op) (r : out) (σ' : gmap N
   | OTryReserve s n => exists m : gmap N elem, σ !! s = Some m /\ (exists b, r = OutB b) /\ σ' = σ
   | OShrinkTo s n => exists m : gmap N elem, σ !! s = Some m /\ r = OutU /\ σ' = σ
   | ODrop s => r = OutU /\ σ' = delete s σ
+  (* iteration: l enumerates the contents, each element once (in an unspecified order) *)
+  | OIter s variant delta =>
+      exists (m : gmap N elem) l, σ !! s = Some m /\ NoDup (map ek l) /\ list_to_emap l = m /\
+        r = OutL (map elem3 l) /\ σ' = <[s := if delta =? 0 then m else bumpv delta <$> m]> σ
+  | ORetain s keep delta =>
+      exists (m : gmap N elem) l, σ !! s = Some m /\ NoDup (map ek l) /\ list_to_emap l = m /\
+        r = OutL (map elem3 l) /\ σ' = <[s := omap (retain_act keep delta) m]> σ
+  | ODrainFilter s take delta j forget =>
+      exists (m : gmap N elem) l v1 rest m', σ !! s = Some m /\ NoDup (map ek l) /\ list_to_emap l = m /\
+        l = v1 ++ rest /\ r = OutL (map elem3 (yield_e take delta v1)) /\
+        pass_res (df_act take delta) m (if forget then v1 else l) m' /\
+        match j with Some j => (length (yield_e take delta v1) <= N.to_nat j)%nat /\
+                               (rest <> [] -> length (yield_e take delta v1) = N.to_nat j)
+                | None => rest = [] end /\
+        σ' = <[s := m']> σ
+  | ODrain s j forget =>
+      exists (m : gmap N elem) l, σ !! s = Some m /\ NoDup (map ek l) /\ list_to_emap l = m /\
+        r = OutL (map elem3 (firstn (N.to_nat j) l)) /\ σ' = <[s := (∅ : gmap N elem)]> σ
+  | OIntoIter s j =>
+      exists (m : gmap N elem) l, σ !! s = Some m /\ NoDup (map ek l) /\ list_to_emap l = m /\
+        r = OutL (map elem3 (firstn (N.to_nat j) l)) /\ σ' = delete s σ
   | _ => True
   end.
 
@@ -43,6 +70,7 @@ Definition core_op (o : op) : Prop :=
   match o with
   | ONew _ _ cap => True
   | OInsert _ _ _ _ | OGet _ _ _ _ | ORemove _ _ _ | OClear _ | OShrinkTo _ _ | ODrop _ => True
+  | OIter _ _ _ | ORetain _ _ _ | ODrainFilter _ _ _ _ _ | ODrain _ _ _ | OIntoIter _ _ => True
   | OReserve _ n | OTryReserve _ n => n <= usize_max
   | _ => False
   end.
@@ -250,6 +278,67 @@ Proof.
       rewrite Eop. cbn [spec_rel]. exists (rt_abs (m_rt ms)). split; [apply wabs_lookup; exact Hs|].
       split; [reflexivity|]. rewrite wabs_store, Habs1. cbn [load s_rt]. apply insert_id. apply wabs_lookup. exact Hs.
     + intros s1 HI1 _. right. split; [reflexivity|apply WInv_store; assumption].
+  - (* OIter *)
+    apply wres_rmap. destruct (w_maps w !! s) as [ms|] eqn:Hs; [|apply with_slot_gen_missing; exact Hs].
+    destruct (HW s ms Hs) as [HI Hfil].
+    apply with_slot_gen_spec with (ms := ms); [exact Hs|]. intros _. rewrite Hfil.
+    apply (map_iter_spec c delta); [exact HI|]. intros l s1 Hit HI1 Habs1. cbn [load s_rt] in *.
+    destruct (iter_of_abs c _ _ HI Hit) as [Hemap Hnd].
+    unfold step_post. split; [apply WInv_store; assumption|]. rewrite Eop. cbn [spec_rel].
+    exists (rt_abs (m_rt ms)), (map snd l). split; [apply wabs_lookup; exact Hs|]. split; [exact Hnd|]. split; [exact Hemap|].
+    split; [rewrite map_map; reflexivity|]. rewrite wabs_store, Habs1. reflexivity.
+  - (* ODrain *)
+    apply wres_rmap. destruct (w_maps w !! s) as [ms|] eqn:Hs; [|apply with_slot_gen_missing; exact Hs].
+    destruct (HW s ms Hs) as [HI Hfil].
+    apply with_slot_gen_spec with (ms := ms); [exact Hs|]. intros _. rewrite Hfil.
+    apply (map_drain_spec c j forget); [exact HI|]. intros l s1 Hd HI1 Habs1 _. cbn [load s_rt] in *.
+    destruct (drain_of_abs c _ _ HI Hd) as [Hemap Hnd].
+    unfold step_post. split; [apply WInv_store; assumption|]. rewrite Eop. cbn [spec_rel].
+    exists (rt_abs (m_rt ms)), l. split; [apply wabs_lookup; exact Hs|]. split; [exact Hnd|]. split; [exact Hemap|].
+    split; [reflexivity|]. rewrite wabs_store, Habs1. reflexivity.
+  - (* OIntoIter *)
+    unfold with_slot, with_slot_gen. destruct (w_maps w !! s) as [ms|] eqn:Hs; [|right; reflexivity].
+    cbn [andb]. destruct (HW s ms Hs) as [HI Hfil].
+    pose proof (map_into_iter_spec c j (fun r _ => exists l, drain_of (m_rt ms) l /\ r = map elem3 (firstn (N.to_nat j) l)) (fun _ _ => False)
+                  (load w ms (t_on t, t_tomb t) (t_perm t, t_qperm t)) HI) as Hd.
+    unfold wp in Hd. destruct (map_into_iter j (load w ms (t_on t, t_tomb t) (t_perm t, t_qperm t))) as [a s1|p s1|f].
+    + destruct Hd as (l & Hdr & ->); [intros l s' Hdr; exists l; auto|].
+      destruct (drain_of_abs c _ _ HI Hdr) as [Hemap Hnd].
+      cbn [wres]. unfold step_post. split.
+      * intros i m. unfold del_slot, store. cbn [w_maps]. intros H. apply lookup_delete_Some in H as [Hne H].
+        rewrite lookup_insert_ne in H by congruence. eapply HW; eauto.
+      * rewrite Eop. cbn [spec_rel]. exists (rt_abs (m_rt ms)), l. split; [apply wabs_lookup; exact Hs|].
+        split; [exact Hnd|]. split; [exact Hemap|]. split; [reflexivity|]. rewrite wabs_delete, wabs_store. apply delete_insert_delete.
+    + exfalso. apply Hd. intros l s' Hdr. exists l; auto.
+    + apply Hd. intros l s' Hdr. exists l; auto.
+  - (* ORetain *)
+    apply wres_rmap. destruct (w_maps w !! s) as [ms|] eqn:Hs; [|apply with_slot_gen_missing; exact Hs].
+    destruct (HW s ms Hs) as [HI Hfil].
+    apply with_slot_gen_spec with (ms := ms); [exact Hs|]. intros _. rewrite Hfil.
+    apply (map_retain_spec c keep delta); [exact HI| |].
+    + intros l s1 Hit HI1 Habs1. cbn [load s_rt] in *.
+      destruct (iter_of_abs c _ _ HI Hit) as [Hemap Hnd].
+      unfold step_post. split; [apply WInv_store; assumption|]. rewrite Eop. cbn [spec_rel].
+      exists (rt_abs (m_rt ms)), (map snd l). split; [apply wabs_lookup; exact Hs|]. split; [exact Hnd|]. split; [exact Hemap|].
+      split; [rewrite map_map; reflexivity|]. rewrite wabs_store. f_equal.
+      apply stdpp.fin_maps.map_eq. intros k. rewrite Habs1, lookup_omap. reflexivity.
+    + intros s1 HI1. right. split; [reflexivity|apply WInv_store; assumption].
+  - (* ODrainFilter *)
+    apply wres_rmap. destruct (w_maps w !! s) as [ms|] eqn:Hs; [|apply with_slot_gen_missing; exact Hs].
+    destruct (HW s ms Hs) as [HI Hfil].
+    apply with_slot_gen_spec with (ms := ms); [exact Hs|]. intros _. rewrite Hfil.
+    apply (map_drain_filter_spec c take delta j forget); [exact HI| |].
+    + intros l v1 rest s1 Hit Hl HI1 Hres Hj. cbn [load s_rt] in *.
+      destruct (iter_of_abs c _ _ HI Hit) as [Hemap Hnd].
+      unfold step_post. split; [apply WInv_store; assumption|]. rewrite Eop. cbn [spec_rel].
+      exists (rt_abs (m_rt ms)), (map snd l), (map snd v1), (map snd rest), (rt_abs (s_rt s1)).
+      split; [apply wabs_lookup; exact Hs|]. split; [exact Hnd|]. split; [exact Hemap|].
+      split; [rewrite Hl, map_app; reflexivity|]. split; [reflexivity|].
+      split. { destruct forget; exact Hres. }
+      split. { destruct j as [j|]; [|subst rest; reflexivity]. destruct Hj as [Hj1 Hj2]. split; [exact Hj1|].
+               intros Hr. apply Hj2. intros ->. apply Hr. reflexivity. }
+      rewrite wabs_store. reflexivity.
+    + intros s1 HI1. right. split; [reflexivity|apply WInv_store; assumption].
   - (* ODrop *)
     unfold with_slot, with_slot_gen. destruct (w_maps w !! s) as [ms|] eqn:Hs; [|right; reflexivity].
     cbn [andb].
@@ -266,7 +355,6 @@ Proof.
       rewrite lookup_insert_ne in H by congruence. eapply HW; eauto.
     + rewrite Eop. cbn [spec_rel]. split; [reflexivity|]. rewrite wabs_delete, wabs_store. apply delete_insert_delete.
 Qed.
-
 
 (* ------------------------------------------------------------------ without a fuse, no user panic *)
 
@@ -306,6 +394,12 @@ Proof.
   - apply wnf_rmap. apply with_slot_gen_nf; [|exact Hf]. apply nf_rt_reserve.
   - apply wnf_rmap. apply with_slot_gen_nf; [|exact Hf]. apply nf_rt_reserve.
   - apply wnf_rmap. apply with_slot_gen_nf; [|exact Hf]. apply nf_rt_shrink_to.
+  - apply wnf_rmap. apply with_slot_gen_nf; [|exact Hf]. apply nf_map_iter.
+  - apply wnf_rmap. apply with_slot_gen_nf; [|exact Hf]. apply nf_map_drain.
+  - pose proof (with_slot_gen_nf false w s (t_on t, t_tomb t) (t_perm t, t_qperm t) (map_into_iter j) (nf_map_into_iter j) Hf) as H.
+    unfold with_slot. destruct (with_slot_gen false w s (t_on t, t_tomb t) (t_perm t, t_qperm t) (map_into_iter j)); exact H.
+  - apply wnf_rmap. apply with_slot_gen_nf; [|exact Hf]. apply nf_map_retain.
+  - apply wnf_rmap. apply with_slot_gen_nf; [|exact Hf]. apply nf_map_drain_filter.
   - pose proof (with_slot_gen_nf false w s (t_on t, t_tomb t) (t_perm t, t_qperm t) map_drop nf_map_drop Hf) as H.
     unfold with_slot. destruct (with_slot_gen false w s (t_on t, t_tomb t) (t_perm t, t_qperm t) map_drop); exact H.
 Qed.
